@@ -31,6 +31,7 @@ import (
 // 14 TUN write (a = id), 15 datagram for which Bind.Send returned an error (a = 0 initiation,
 // 1 response, 2 keepalive, 3 data), 6 device down, 7 hook: keypairs a seconds older,
 // 8 hook: handshakeAttempts := a, 9 UAPI set creating the peer on a device that is up,
+// 17 hook: lastSentHandshake a seconds older,
 // 20 end of observation.
 type Item struct {
 	C   int    `json:"c"`
@@ -107,6 +108,26 @@ func (s *scen) failInitiation(k int) {
 func (s *scen) shiftKeys(secs int) {
 	s.in(7, uint64(secs), 0)
 	s.w.Dev.VerifShiftKeypairAges(cosim.NoisePK(s.p.Pub), time.Duration(secs)*time.Second)
+}
+
+// shiftHs makes lastSentHandshake secs older (VerifShiftHandshakeTimes), so that the next
+// non-retry initiation passes the 5 s rate limit while the retransmit timer is still pending.
+func (s *scen) shiftHs(secs int) {
+	s.in(17, uint64(secs), 0)
+	s.w.Dev.VerifShiftHandshakeTimes(cosim.NoisePK(s.p.Pub), time.Duration(secs)*time.Second)
+}
+
+// tunN delivers n separate TUN read batches of per packets each.
+func (s *scen) tunN(n, per int) {
+	if n < 1 {
+		n = 1
+	}
+	for i := 0; i < n; i++ {
+		s.tun(per)
+	}
+	if n > 1 {
+		s.tunIdle()
+	}
 }
 
 // setAttempts presets handshakeAttempts (VerifSetHandshakeAttempts, /repo/device/verif_c14.go).
@@ -466,6 +487,24 @@ func run(spec Spec) Case {
 		}
 		s.sleepUntil(time.Duration(spec.N)*5334*ms + 650*ms)
 
+	case "fresh":
+		// a fresh (non-retry) initiation while the retransmit timer of the previous one is pending
+		// (let through the 5 s rate limit by ageing lastSentHandshake): the next retransmission is
+		// due 5 s + jitter after the FRESH one
+		if spec.Pka == 0 {
+			s.tun(per)
+		}
+		if s.waitInit(1, 2*sec) == nil {
+			s.err = "no initiation"
+			break
+		}
+		time.Sleep(time.Duration(150+spec.Delay*3%700) * ms)
+		s.shiftHs(6)
+		time.Sleep(10 * ms)
+		t0 := time.Now()
+		s.tun(per)
+		time.Sleep(time.Until(t0.Add(time.Duration(spec.N)*5334*ms + 650*ms)))
+
 	case "retxerr":
 		// unanswered initiation; the bind refuses the N-th one (an attempt all the same):
 		// the next retransmission is due 5 s + jitter after that attempt
@@ -480,7 +519,7 @@ func run(spec Spec) Case {
 		if spec.Pka > 0 {
 			init = s.waitInit(1, 2*sec)
 		} else {
-			s.tun(per)
+			s.tunN(spec.N, per)
 			init = s.waitInit(1, 2*sec)
 		}
 		if init == nil {
@@ -531,7 +570,7 @@ func run(spec Spec) Case {
 			}
 		}
 		n0 := s.countInit()
-		s.tun(per)
+		s.tunN(spec.N, per) // N separately staged batches
 		i1 := s.waitInit(n0+1, s.since()+2*sec)
 		if i1 == nil {
 			s.err = "no initiation for the queued packet"
@@ -575,10 +614,10 @@ func run(spec Spec) Case {
 			break
 		}
 		if spec.Pka == 0 {
-			s.tun(per)
+			s.tunN(spec.N, per)
 		} else {
 			time.Sleep(40 * ms)
-			s.tun(per)
+			s.tunN(spec.N, per)
 		}
 		switch {
 		case spec.Pka == 0:
@@ -929,14 +968,16 @@ func quickSpecs(r *rand.Rand) []Spec {
 		{Kind: "retx", N: 2, Per: 3, Delay: d()},
 		{Kind: "retx", N: 2, Pka: 25, Delay: d()},
 		{Kind: "retx", N: 2, Pka: 1, Delay: d()},
-		{Kind: "regive", Per: 1, Var: "session", Delay: d()},
-		{Kind: "regive", Per: 2, Delay: d()},
+		{Kind: "regive", N: 5, Per: 1, Var: "session", Delay: d()},
+		{Kind: "regive", N: 2 + r.Intn(5), Per: 2, Delay: d()},
+		{Kind: "fresh", N: 1, Per: 1, Delay: d()},
+		{Kind: "fresh", N: 2, Per: 2, Delay: d()},
 		{Kind: "retxerr", N: 2, Per: 1, Delay: d()},
 		{Kind: "retxerr", N: 1, Per: 2, Delay: d()},
 		{Kind: "bounce", Pka: 2, Delay: d()},
 		{Kind: "bounce", Pka: 1, Var: "unanswered", Delay: d()},
 		{Kind: "bounce", Per: 1, Delay: d()},
-		{Kind: "bounce", Per: 2, Var: "unanswered", Delay: d()},
+		{Kind: "bounce", N: 4, Per: 2, Var: "unanswered", Delay: d()},
 		{Kind: "lost", N: 1, Per: 1, Var: "newhs", Delay: d()},
 		{Kind: "lost", N: 2, Per: 2, Var: "more", Delay: d()},
 		{Kind: "lost", N: 3, Per: 1, Delay: d()},
@@ -976,8 +1017,8 @@ func thoroughSpecs(r *rand.Rand) []Spec {
 	d := func() int { return 400 + r.Intn(3600) }
 	sp := quickSpecs(r)
 	sp = append(sp,
-		Spec{Kind: "giveup", Per: 1, Delay: d()},
-		Spec{Kind: "giveup", Per: 2, Var: "tun", Delay: d()},
+		Spec{Kind: "giveup", N: 3, Per: 1, Delay: d()},
+		Spec{Kind: "giveup", N: 6, Per: 2, Var: "tun", Delay: d()},
 		Spec{Kind: "giveup", Per: 2, Var: "resess", Delay: d()},
 		Spec{Kind: "giveup", Per: 1, Delay: d()},
 		Spec{Kind: "giveup", Pka: 25, Per: 1, Delay: d()},
